@@ -1,6 +1,8 @@
 package keyset
 
 import (
+	"errors"
+
 	"github.com/tink-crypto/tink-go/v2/internal/protoserialization"
 	"github.com/tink-crypto/tink-go/v2/key"
 	"github.com/tink-crypto/tink-go/v2/internal/verifrt"
@@ -87,8 +89,10 @@ func VerifH_hassecrets() {
 	secret := false
 	for i := 0; i < n; i++ {
 		mt := tinkpb.KeyData_KeyMaterialType(verifrt.Int32(knames[i] + ".material"))
-		// enum values on the wire are 0..4; anything else cannot be produced by the proto parser
-		verifrt.Assume(mt >= 0 && mt <= 4)
+		// any int32: proto3 enums are open, so a parsed keyset can carry values outside 0..4.
+		// The classifier is a deny-list over the three named values: unrecognised numbers count
+		// as "not secret" (observation in DESIGN section 6; the per-type parsers of registered
+		// key types refuse such labels, fallback keys do not).
 		// every other attribute of the key is arbitrary: the classification must depend on the material type only
 		ks.Key = append(ks.Key, &tinkpb.Keyset_Key{
 			KeyData:          &tinkpb.KeyData{KeyMaterialType: mt, TypeUrl: "type.googleapis.com/stub"},
@@ -110,3 +114,45 @@ func VerifH_hassecrets() {
 	}
 	verifrt.Reach("end")
 }
+
+// A key that fails to parse makes handle construction fail - whatever its status and
+// position (a DISABLED or DESTROYED key is not a reason to keep unparsed bytes in a handle:
+// the per-type parsers are the second guard behind hasSecrets, C13 / C14).
+func VerifH_keyset_parse_errors_propagate() {
+	n := 1 + verifrt.Choice("n", 2) // two keys: every (status, prefix type, id, failing position) combination
+	failAt := verifrt.Choice("fail", n+1) // n: every key parses
+	ks := &tinkpb.Keyset{PrimaryKeyId: verifrt.Uint32("primary")}
+	for i := 0; i < n; i++ {
+		mt := [...]tinkpb.KeyData_KeyMaterialType{tinkpb.KeyData_ASYMMETRIC_PUBLIC, tinkpb.KeyData_REMOTE}[verifrt.Choice(knames[i]+".material", 2)]
+		ks.Key = append(ks.Key, &tinkpb.Keyset_Key{
+			KeyData:          &tinkpb.KeyData{KeyMaterialType: mt, TypeUrl: "type.googleapis.com/stub", Value: []byte{byte(i)}},
+			Status:           tinkpb.KeyStatusType(verifrt.Int32(knames[i] + ".status")),
+			OutputPrefixType: [...]tinkpb.OutputPrefixType{tinkpb.OutputPrefixType_TINK, tinkpb.OutputPrefixType_RAW}[verifrt.Choice(knames[i]+".prefix", 2)],
+			KeyId:            verifrt.Uint32(knames[i] + ".id"),
+		})
+	}
+	verifrt.Summarize("internal/protoserialization.ParseKey", func(s *protoserialization.KeySerialization) (key.Key, error) {
+		if int(s.KeyData().GetValue()[0]) == failAt {
+			return nil, errStubParse
+		}
+		id, req := s.IDRequirement()
+		return &stubKey{id: id, req: req, tag: int(s.KeyData().GetValue()[0])}, nil
+	})
+	valid := specValid(ks)
+	h, err := NewHandleWithNoSecrets(ks)
+	verifrt.Assert((err == nil) == verifrt.And(valid, failAt == n), "NewHandleWithNoSecrets succeeds iff the keyset is well-formed and EVERY key parses")
+	if err == nil {
+		verifrt.Assert(h.Len() == n, "handle has every key")
+		for i := 0; i < n; i++ {
+			e, _ := h.Entry(i)
+			sk, ok := e.Key().(*stubKey)
+			verifrt.Assert(ok && sk.tag == i, "every entry holds the key its parser returned, in order")
+		}
+		verifrt.Reach("accepted")
+	}
+	h2, err2 := ReadWithNoSecrets(&MemReaderWriter{Keyset: ks})
+	verifrt.Assert((err2 == nil) == (err == nil) && (h2 == nil) == (h == nil), "ReadWithNoSecrets decides the same")
+	verifrt.Reach("end")
+}
+
+var errStubParse = errors.New("stub parser: malformed key")
